@@ -1,4 +1,6 @@
 import CppUModel.Proofs.JUnitLoop
+import CppUModel.Proofs.JUnitBehaviours
+import CppUModel.Proofs.JUnitRead
 /-!
 # C16 — the JUnit report is well-formed XML and faithful to the run
 
@@ -122,7 +124,7 @@ theorem first_failure_cases (t : TestInfo) (f : Bytes) (l : Nat) (m : Bytes) (as
     firstFail t (.failLoc f l :: as) = some (locFailure t f l) ∧
     firstFail t [.postFail m] = some (msgFailure t m) ∧
     firstFail t [] = none := by
-  simp [firstFail, testBodyEvs, actEvs, postEvs, evsFirst]
+  simp [firstFail, testBodyEvs, testInner, traceBefore, traceBetween, traceAfter, vv, bodyExits, actEvs, postEvs, evsFirst]
 
 /-- An ignored test never has a failure, so its element shows the skipped marker. -/
 theorem ignored_shows_marker (sc : Script) (c : Case) (h : caseKey c = scriptKey sc) (hi : sc.info.willRun = false) :
@@ -183,20 +185,155 @@ theorem report_file_names (package timeString : Bytes) (evs : List Ev) :
           exact ⟨s.package, by simp [reportOf, suiteOf, createFileName_eq_expected]⟩
     · exact ih _ r hr
 
-/-! ## what is NOT proved -/
+/-! ## three behaviours of the code that are not violations, stated exactly -/
 
-/-- FULL statement, not proved: the specification's own report reader (tokenizer + layout reader of
-    `Spec/JUnit.lean`) accepts every file of every run and returns exactly the structured report, provided
-    the platform's time string needs no encoding.  What is proved instead (`…_partial` below) is the
-    template (`document_shape`) plus the per-field safety and round-trip lemmas; the reader itself and
-    Python's expat are run on every file the real code writes in the check (oracle / expat judge). -/
+/-- (1) Two groups get the same file name exactly when their names agree after the illegal characters
+    are replaced (e.g. `a/b` and `a:b`); the writer then opens that name twice, in group order — what
+    the file system makes of it (the later report replaces the earlier) is outside the code. -/
+theorem same_file_name_iff (package g1 g2 : Bytes) :
+    createFileName package g1 = createFileName package g2 ↔ sanitize g1 = sanitize g2 := by
+  rw [createFileName_eq_expected, createFileName_eq_expected]
+  exact expectedFileName_eq_iff package g1 g2
+
+def collidingGroups : List Script :=
+  [ { info := { group := lit "a/b", name := lit "t1", file := lit "f", line := 1, willRun := true }, acts := [] },
+    { info := { group := lit "a:b", name := lit "t2", file := lit "f", line := 2, willRun := true }, acts := [] } ]
+
+theorem colliding_groups_write_the_same_name_twice :
+    (files [] (lit "T") (runAll none collidingGroups)).map (·.name) = [lit "cpputest_a_b.xml", lit "cpputest_a_b.xml"] := by
+  decide
+
+/-- (2) The captured output is never reset between groups (`stdOutput_` is only appended to): the
+    `<system-out>` of the report written at a group end is EVERYTHING printed since the start of
+    the run, for any event list on which the collector does not crash (every run of the registry:
+    `run_never_crashes`).  This is why the oracle accepts the accumulated text. -/
+theorem captured_output_accumulates (package timeString : Bytes) (pre : List Ev) (ms : Nat)
+    (h : (stFrom { package := package, timeString := timeString } pre).crashed = false) :
+    ∃ r, reports package timeString (pre ++ [.groupEnded ms]) = reports package timeString pre ++ [r] ∧
+      r.2.stdout = evsPrinted pre := by
+  refine ⟨reportOf { stFrom { package := package, timeString := timeString } pre with groupExecTime := ms }, ?_, ?_⟩
+  · simp [reports, reportsFrom_append, reportsFrom_cons, reportsFrom_nil, reportsOf, h]
+  · have := stdOutput_after pre { package := package, timeString := timeString } h
+    simpa [reportOf, suiteOf] using this
+
+/-- … in particular on every prefix of a run of the registry -/
+theorem run_prefix_never_crashes (package timeString : Bytes) (flt : Option Filter) (tests : List Script)
+    (pre post : List Ev) (h : runAll flt tests = pre ++ post) :
+    (stFrom { package := package, timeString := timeString } pre).crashed = false :=
+  not_crashed_prefix pre post _ (by rw [← h]; exact run_never_crashes package timeString flt tests)
+
+/-- (3) A group none of whose tests runs (all filtered out) still gets a report: since no test
+    started, the collector never learnt the group's name — the suite is called "", counts 0 tests
+    and the file is `cpputest_[package_].xml`. -/
+theorem group_without_running_tests (package timeString : Bytes) (flt : Option Filter) (t : Script)
+    (h : shouldRun flt t.info = false) :
+    reports package timeString (runAll flt [t]) =
+      [(expectedFileName package [],
+        { failures := 0, name := [], tests := 0, secs := 0, millis := 0, timestamp := timeString, cases := [], stdout := [] })] := by
+  have h0 : castInt 0 = 0 := by decide
+  simp [reports, runAll, loop, startEvs, bodyEvs, endEvs, endOfGroup, h, reportsFrom_cons, reportsFrom_nil, reportsOf, step,
+    reportOf, suiteOf, casesOf, createFileName_eq_expected, h0, bodyR, countFiltered, countTest]
+
+/-! ## reading a whole report back -/
+
+/-- The specification's own report reader (tokenizer + layout reader of `Spec/JUnit.lean`) accepts
+    the rendering of ANY well-formed structured report — attribute values and text arbitrary byte
+    strings, so in particular everything over `& < > " '` and line breaks — and returns exactly the
+    `Suite`/`Case`s it was rendered from.  Well-formed: millisecond parts below 1000, no case that is
+    both failed and marked skipped (only one of the two is rendered), a time string that needs no
+    encoding. -/
+theorem report_reader_roundtrip (su : Suite) (hwf : suiteWf su) (hts : plain su.timestamp) :
+    parseReport su.render = .ok su := parseReport_render su hwf hts
+
+theorem casesOf_millis (p g : Bytes) : ∀ (ns : List Node) (t : Nat), ∀ c ∈ casesOf p g t ns, c.millis < 1000
+  | [], _, c, hc => by simp [casesOf] at hc
+  | n :: rest, t, c, hc => by
+    simp only [casesOf, List.mem_cons] at hc
+    rcases hc with h | h
+    · subst h; simp only [caseOf]; exact Nat.mod_lt _ (by decide)
+    · exact casesOf_millis p g rest _ c h
+
+theorem reports_are_reportOf : ∀ (evs : List Ev) (s : St), ∀ r ∈ reportsFrom s evs, ∃ s', r = reportOf s'
+  | [], s, r, hr => by simp [reportsFrom_nil] at hr
+  | e :: es, s, r, hr => by
+    rw [reportsFrom_cons, List.mem_append] at hr
+    rcases hr with hr | hr
+    · cases e <;> simp only [reportsOf, List.not_mem_nil] at hr
+      case groupEnded ms =>
+        split at hr
+        · simp at hr
+        · exact ⟨_, List.mem_singleton.mp hr⟩
+    · exact reports_are_reportOf es _ r hr
+
+/-- The statement formerly left open, now proved: on every run of the registry the reader accepts
+    every report and returns it. -/
 def report_reader_roundtrip_full : Prop :=
   ∀ (package timeString : Bytes) (flt : Option Filter) (tests : List Script),
     plain timeString →
     ∀ r ∈ reports package timeString (runAll flt tests), parseReport r.2.render = .ok r.2
 
-/-- the proved part: every file is the rendered template, and every encoded field — attribute or
-    text — is safe and is read back exactly, whatever follows it -/
+theorem report_reader_roundtrip_on_runs : report_reader_roundtrip_full := by
+  intro package timeString flt tests hts r hr
+  obtain ⟨s', hs'⟩ := reports_are_reportOf _ _ r hr
+  have hkeys := one_testcase_per_test_in_order package timeString flt tests
+  have htsr : r.2.timestamp = timeString := by
+    -- the time string never changes
+    have : ∀ (evs : List Ev) (s : St), ∀ r ∈ reportsFrom s evs, r.2.timestamp = s.timeString := by
+      intro evs
+      induction evs with
+      | nil => intro s r hr; simp [reportsFrom_nil] at hr
+      | cons e es ih =>
+        intro s r hr
+        rw [reportsFrom_cons, List.mem_append] at hr
+        rcases hr with hr | hr
+        · cases e <;> simp only [reportsOf, List.not_mem_nil] at hr
+          case groupEnded ms =>
+            split at hr
+            · simp at hr
+            · rw [List.mem_singleton.mp hr]; rfl
+        · have := ih _ r hr
+          rw [this]
+          unfold step
+          split
+          · rfl
+          · cases e <;> simp [onTestStarted, onFailure, onTestEnded, onGroupEnded, reset] <;>
+              (first | rfl | (split <;> (first | rfl | (split <;> rfl))))
+    exact this _ _ r hr
+  apply parseReport_render
+  · refine ⟨?_, ?_⟩
+    · rw [hs']; simp only [reportOf, suiteOf]; exact Nat.mod_lt _ (by decide)
+    · intro c hc
+      refine ⟨?_, ?_⟩
+      · rw [hs'] at hc; exact casesOf_millis _ _ _ _ c hc
+      · intro hf
+        have hk : caseKey c ∈ (reports package timeString (runAll flt tests)).flatMap reportKeys :=
+          List.mem_flatMap.mpr ⟨r, hr, List.mem_map.mpr ⟨c, hc, rfl⟩⟩
+        rw [hkeys] at hk
+        obtain ⟨sc, _, hsc⟩ := List.mem_map.mp hk
+        simp only [scriptKey, caseKey, Prod.mk.injEq] at hsc
+        cases hw : sc.info.willRun
+        · rw [hw] at hsc; rw [← hsc.2.2.2.2] at hf; simp at hf
+        · rw [hw] at hsc; rw [← hsc.2.2.2.1]; rfl
+  · rw [htsr]; exact hts
+
+/-- Corollary on the bytes: every file of a run is accepted by the reader, which returns the
+    structured report the file was written from (`document_shape` + the reader = the original fields). -/
+theorem files_are_read_back (package timeString : Bytes) (flt : Option Filter) (tests : List Script)
+    (hts : plain timeString) :
+    (files package timeString (runAll flt tests)).map (fun f => parseReport f.bytes) =
+      (reports package timeString (runAll flt tests)).map (fun r => (Except.ok r.2 : Except String Suite)) := by
+  have h := document_shape package timeString (runAll flt tests)
+  have hr := report_reader_roundtrip_on_runs package timeString flt tests hts
+  generalize files package timeString (runAll flt tests) = fs at h
+  generalize reports package timeString (runAll flt tests) = rs at h hr
+  subst h
+  induction rs with
+  | nil => rfl
+  | cons r rs ih =>
+    simp only [List.map_cons]
+    rw [hr r (List.mem_cons_self ..), ih (fun x hx => hr x (List.mem_cons_of_mem _ hx))]
+
+/-- the template and per-field part, kept from the earlier round -/
 theorem report_reader_roundtrip_partial (package timeString : Bytes) (evs : List Ev) :
     (files package timeString evs = (reports package timeString evs).map fun r => { name := r.1, bytes := r.2.render }) ∧
     (∀ v rest : Bytes, attrAndTextSafe (encodeRef v) = true ∧
